@@ -342,7 +342,10 @@ def _unscaled_rms_norm(
 ) -> torch.Tensor:
     assert input.shape[-len(normalized_shape) :] == normalized_shape
     dims = tuple(range(-1, -1 - len(normalized_shape), -1))
-    output = input / rms(input, dims=dims, keepdim=True, eps=eps)
+    # Normalise in (at least) float32, like F.rms_norm: in float16 the backward of a
+    # division by an rms above 256 overflows (rms**2 > 65504)
+    x = input.to(torch.promote_types(input.dtype, torch.float32))
+    output = (x / rms(x, dims=dims, keepdim=True, eps=eps)).to(input.dtype)
     if weight is not None:
         output *= weight
     return output
